@@ -102,11 +102,12 @@ def ensure_builds(names, log=print):
             todo.append((n, d, exe))
     if not todo:
         return out
-    # remove stale builds of the same names (disk)
+    # remove stale builds of the same names (disk): keep the few most recent ones, because checks may run
+    # concurrently against different source trees (VERIF_REPO)
     for n, d, exe in todo:
-        for old in glob.glob(os.path.join(BUILD, n + "-*")):
-            if old != d:
-                shutil.rmtree(old, ignore_errors=True)
+        olds = sorted((o for o in glob.glob(os.path.join(BUILD, n + "-*")) if o != d), key=os.path.getmtime)
+        for old in olds[:-4]:
+            shutil.rmtree(old, ignore_errors=True)
         os.makedirs(d, exist_ok=True)
     t0 = time.time()
     units = []
